@@ -1,5 +1,6 @@
 import Drx.Cast
 import Drx.CastSpec
+import Drx.CastSteps
 import Drx.Drv.Util
 namespace Drx.Drv.Cast
 open Drx Drx.Drv Drx.Cast
@@ -57,6 +58,15 @@ def run : List String → Option String
                  ("valid", .bool (decide m.valid)),
                  ("rt4", .bool ((castJ (parseCast c (encD4 m))).render == v)),
                  ("rt5", .bool ((castJ (parseCast c (encD5 m))).render == v))]).render
+  | ["steps", h] => do
+    -- C10: rounds of the three Python-level loops of parse_basic_cast_data that start (the raising round included)
+    let b ← bytesOfHex h
+    some (toString (castSteps b).total)
+  | ["stepsx", h] => do
+    let b ← bytesOfHex h
+    let s := castSteps b
+    some (J.obj [("numbers", J.nat s.numbers), ("offsets", J.nat s.offsets), ("structures", J.nat s.structures),
+                 ("extras_bytes", J.nat s.extrasBytes), ("name_bytes", J.nat s.nameBytes), ("total", J.nat s.total)]).render
   | _ => none
 
 end Drx.Drv.Cast
